@@ -111,7 +111,7 @@ def paths_for(rules, nstr):
 
 def shards(tier, seed):
     u = universe()
-    out = [('flavours', None, None), ('single', None, None), ('names', None, None), ('samemask', None, None)]
+    out = [('flavours', None, None), ('single', None, None), ('names', None, None), ('hooknames', None, None), ('samemask', None, None)]
     cidx0 = core_rules(universe())
     for i in cidx0:
         out.append(('removed', i, None))
@@ -138,7 +138,7 @@ def bounds(tier, seed):
             'path_generators': 'instantiation with ' + repr(rr.WILD_VALUES) + ', perturbations, all strings over {a,b,1,/,CR} <= 4 (3 for triples)'}
 
 
-FLOORS = {'multi_match': 1000, 'not_found': 1000, 'matched': 1000, 'routers': 1000, 'flavour_texts': 100, 'wsgi_calls': 500,
+FLOORS = {'hooknames_calls': 100, 'multi_match': 1000, 'not_found': 1000, 'matched': 1000, 'routers': 1000, 'flavour_texts': 100, 'wsgi_calls': 500,
           'rejected_sets': 1}
 
 
@@ -386,6 +386,47 @@ def work(spec):
                                                f'GET {rr.default_text(r1)} + POST {rr.default_text(r2)}: {method} {path} called '
                                                f'{got!r} (status {cl.status}), expected {exp!r}', sig='same-pattern-names')
         core.add_sample(res, {'same_pattern_two_methods': ['/p/{a} GET', '/p/{b} POST']})
+    elif kind == 'hooknames':
+        # a route hook on the very pattern of a route, written with other (or no) wildcard names, installed before or after
+        # the route: the handler still gets the names of the rule it was registered under
+        om = sut.load()
+        for w1, w2 in ((W('a'), W('b')), (W('a', 'int'), W('b', 'int')), (W('a', 'int'), W(None, 'int')), (W('a', 're', 'a+'), W('b', 're', 'a+')),
+                       (W('a', 're', 'a+'), W(None, 're', 'a+'))):
+            for tail in ((), (L('/x'),), (L('/'), W('c'))):
+                for order in ('hook-first', 'route-first', 'hook-first-then-removed'):
+                    r1, r2 = (L('p/'), w1) + tail, (L('p/'), w2) + tuple((W('d') if t[0] == 'W' else t) for t in tail)
+                    app = om.Ombott()
+                    seen = {}
+
+                    def h1(**kw):
+                        seen['v'] = kw
+                        return 'g'
+                    try:
+                        if order.startswith('hook-first'):
+                            app.on_route(rr.default_text(r2), lambda prefix: None)
+                        app.route(rr.default_text(r1), 'GET', h1)
+                        if order == 'route-first':
+                            app.on_route(rr.default_text(r2), lambda prefix: None)
+                        if order == 'hook-first-then-removed':
+                            app.remove_route_hook(rr.default_text(r2))
+                    except Exception as e:   # noqa
+                        res['outcomes'].add(f'hooknames: registration rejected {type(e).__name__}')
+                        continue
+                    for val in ('a', 'aa', '1', '12'):
+                        seen.clear()
+                        path = '/p/' + val + ''.join(t[1] if t[0] == 'L' else 'zz' for t in tail)
+                        cl = wsgi.call(app, wsgi.environ('GET', path))
+                        res['states'] += 1
+                        res['transitions'] += 1
+                        c['hooknames_calls'] += 1
+                        m = rr.match(r1, path.strip('/'))
+                        exp = dict(m) if m is not None else None
+                        got = seen.get('v')
+                        if got != exp:
+                            core.add_violation(res, {'kind': 'hooknames', 'rules': [rr.default_text(r1), rr.default_text(r2)], 'order': order, 'path': path},
+                                               f'route {rr.default_text(r1)} and a route hook on {rr.default_text(r2)} ({order}): GET {path} called the handler with '
+                                               f'{got!r} (status {cl.status}), expected {exp!r}', sig='hook-names')
+        core.add_sample(res, {'route_and_hook_with_other_wildcard_names': ['/p/{a:int()}', '/p/{b:int()}', '/p/{:int()}']})
     elif kind == 'wsgi':
         om = sut.load()
         for i in range(a, min(a + 4, len(u))):
@@ -508,6 +549,30 @@ def replay(case):
             return None
         return (f'rules {case["rules"]}: GET {case["path"]!r} -> status {cl.status}, handler call {got!r}; '
                 f'reference {exp!r} (handler index, kwargs)')
+    if kind == 'hooknames':
+        app = om.Ombott()
+        seen = {}
+
+        def hh(**kw):
+            seen['v'] = kw
+            return 'g'
+        r1t, r2t = case['rules']
+        if case['order'].startswith('hook-first'):
+            app.on_route(r2t, lambda prefix: None)
+        app.route(r1t, 'GET', hh)
+        if case['order'] == 'route-first':
+            app.on_route(r2t, lambda prefix: None)
+        if case['order'] == 'hook-first-then-removed':
+            app.remove_route_hook(r2t)
+        cl = wsgi.call(app, wsgi.environ('GET', case['path']))
+        got = seen.get('v')
+        # the reference: match the rule text's own AST is not stored; names are the lower-case wildcard names of the route rule
+        import re as _re
+        names = set(_re.findall(r'\{([a-z]+)[:}]', r1t))
+        if got is not None and set(got) == names:
+            return None
+        return (f'route {r1t} with a route hook on {r2t} ({case["order"]}): GET {case["path"]} called the handler with {got!r} (status {cl.status}); '
+                f'the wildcards of its rule are named {sorted(names)!r}')
     # names
     app = om.Ombott()
     seen = {}
